@@ -831,3 +831,43 @@ Section Symbolic.
     all: try reflexivity.
   Qed.
 End Symbolic.
+
+(* ============================================================================================
+   10. T18j: lower_bound_dual_variable (translated on this run) is EXACTLY the infimum of the admissible dual
+       variables of the chosen set: a dual variable is above the bound iff the closed-form consumption of every
+       chosen alternative is defined at it.  A bound that is too high would cut optimal (e.g. negative) dual
+       variables of NonMonotonic out of the bisection bracket; a bound that is too low would let the bisection
+       evaluate the closed form outside its domain. *)
+Definition code_lb (v : variant) := match v with VG => gp_lower_bound | VT => tr_lower_bound | VZ => gn_lower_bound | VN => nm_lower_bound end.
+
+Lemma nm_fold_bound scale l b lam :
+  Rbar_lt (fold_left (fun (lower_bound : Rbar) (me : R * R) =>
+     let eps_s := match scale with Some s => snd me / s | None => snd me end in
+     let mu_utility := fst me + eps_s in
+     if Rbar_lt_dec lower_bound (Finite mu_utility) then Finite mu_utility else lower_bound) l b) (Finite lam)
+  <-> Rbar_lt b (Finite lam) /\ Forall (fun me => fst me + sc_eps scale (snd me) < lam) l.
+Proof.
+  revert b. induction l as [|me l IH]; intros b; simpl.
+  - split; [intros H; split; [exact H | constructor] | tauto].
+  - rewrite IH. fold (sc_eps scale (snd me)). set (m := fst me + sc_eps scale (snd me)).
+    destruct (Rbar_lt_dec b (Finite m)) as [Hlt|Hge].
+    + split.
+      * intros (Hm & Hl). simpl in Hm. split; [|constructor; assumption].
+        eapply Rbar_lt_trans; [exact Hlt | exact Hm].
+      * intros (Hb & Hl). inversion Hl; subst. split; [simpl; assumption | assumption].
+    + split.
+      * intros (Hb & Hl). split; [exact Hb|]. constructor; [|exact Hl].
+        apply Rbar_not_lt_le in Hge. destruct b as [b| |]; simpl in *; try contradiction. fold m. lra.
+      * intros (Hb & Hl). inversion Hl; subst. split; assumption.
+Qed.
+
+Theorem lower_bound_exact v scale l lam :
+  Rbar_lt (code_lb v scale l) (Finite lam)
+  <-> (v <> VN -> 0 < lam) /\ Forall (fun me => lam_ok v scale (fst me) (snd me) lam) l.
+Proof.
+  destruct v; simpl.
+  1-3: (split; [intros H; split; [intros _; exact H | apply Forall_forall; intros; exact H]
+               | intros (H & _); apply H; discriminate]).
+  unfold nm_lower_bound. rewrite nm_fold_bound. simpl. split; [intros (_ & H) | intros (_ & H)]; split; try exact H; try exact I.
+  intros C; contradiction C; reflexivity.
+Qed.
